@@ -172,6 +172,23 @@ def main():
         cc = sp.csc_array(m[:3])
         wrong = sp.csr_array((cc.data, cc.indices, cc.indptr), cc.shape)
         check("S2 (sanity) the triple of a CSC array read as CSR denotes ANOTHER matrix (the transpose)", not np.array_equal(wrong.toarray(), cc.toarray()) and np.array_equal(wrong.toarray(), cc.toarray().T))
+        # ---- open handles / absent file (pyvc/plug_c12.py, backup clauses)
+        import os
+
+        bp = f"{d}/backup_model.h5"
+        with h5py.File(bp, "a") as f:
+            check("C12-a File(path, 'a') on an ABSENT file creates it with no member", list(f.keys()) == [] and os.path.exists(bp))
+        try:
+            with h5py.File(bp, "a") as f:
+                f.require_group("x")
+                raise KeyError("boom")
+        except KeyError:
+            pass
+        check("C12-b leaving the `with` block by an exception closes the handle", not bool(f.id.valid))
+        with h5py.File(bp) as f:
+            check("C12-c what the closed writer left is what the next open reads", list(f.keys()) == ["x"])
+            check("C12-d the file cannot be opened for appending while a read handle is open (why the backup is loaded BEFORE the listener is registered)",
+                  raises(OSError, lambda: h5py.File(bp, "a")))
     finally:
         shutil.rmtree(d, ignore_errors=True)
     print("FAILED:" if FAIL else "all h5py model assumptions validated", FAIL or "")
